@@ -786,10 +786,13 @@ def splitSign : List Char → Bool × List Char
   | r => (false, r)
 
 /-- the exact value of a decimal text `[+-] digits [. digits] [e|E [+-] digits]` (at least one digit in the
-mantissa, at least one in an exponent that is present).  `none`: not of that shape (`inf`, `nan`,
-underscores, blanks … are left to Python) -/
+mantissa, at least one in an exponent that is present), white space around it ignored.  `none`: not of that
+shape (`inf`, `nan`, underscores … are left to Python) -/
 def decimalValue (s : String) : Option Rat :=
-  let (neg, r) := splitSign s.toList
+  -- `float()` strips leading and trailing white space
+  let isWs := fun (c : Char) => c == ' ' || c == '\t' || c == '\n' || c == '\r' || c == '\x0b' || c == '\x0c'
+  let cs := ((s.toList.dropWhile isWs).reverse.dropWhile isWs).reverse
+  let (neg, r) := splitSign cs
   let ip := r.takeWhile Char.isDigit
   let r1 := r.dropWhile Char.isDigit
   let (fp, r2) : List Char × List Char :=
